@@ -4,6 +4,8 @@
 //! Channels
 //!   vars.calc_step_length  `DefaultVariables::calc_step_length` (nonnegative cone) vs `Step.calcStepLength`
 //!   vars.add_step          `DefaultVariables::add_step` vs `Step.addStepVec / addStepScalar`
+//!   vars.step_k            `calc_step_length` + `add_step` over a CompositeCone of all seven cone kinds
+//!                          vs `StepK.calcStepLength / addStep`; oracle: the stepped point is interior
 //!   loop.prefix            solves under every budget k ≤ K vs the skeleton replaying the long
 //!                          run's oracle answers under budget k
 //!   traj.prefix            implementation-only: bitwise prefix property of the trajectory
@@ -103,6 +105,446 @@ fn run_add_step(r: &Req) -> String {
     step.κ = r.f("dkappa");
     verif_hooks_info::add_step(&mut vars, &step, r.f("alpha"));
     Line::out().fs("x", &vars.x).fs("s", &vars.s).fs("z", &vars.z).f("tau", vars.τ).f("kappa", vars.κ).done()
+}
+
+
+// ---------------------------------------------------------------- vars.step_k
+
+use clarabel::verif_hooks::cones::verif_hooks_expcone as hexp;
+use clarabel::verif_hooks::cones::verif_hooks_genpowcone as hgp;
+use clarabel::verif_hooks::cones::verif_hooks_powcone as hpow;
+use clarabel::verif_hooks::cones::verif_hooks_psdcone as hpsd;
+use clarabel::verif_hooks::cones::verif_hooks_psdcone_step as hpstep;
+use clarabel::verif_hooks::cones::verif_hooks_socone as hsoc;
+use clarabel::verif_hooks::cones::{Cone, ExponentialCone, GenPowerCone, PSDTriangleCone, PowerCone, SymmetricCone};
+use clarabel::verif_hooks::step::ScalingStrategy;
+
+/// kinds: 0 zero, 1 nonnegative, 2 second-order, 3 exponential (alpha < 0) / power, 4 PSD, 5 genpow
+fn k_cone_types(r: &Req) -> Vec<SupportedConeT<f64>> {
+    let (kinds, dims, alphas, gpal, gpd1) = (r.us("kinds"), r.us("dims"), r.fs("alphas"), r.fs("gpal"), r.us("gpd1"));
+    let (mut ia, mut ig, mut iga) = (0, 0, 0);
+    kinds.iter().zip(&dims).map(|(&k, &n)| match k {
+        0 => ZeroConeT(n),
+        1 => NonnegativeConeT(n),
+        2 => SecondOrderConeT(n),
+        3 => {
+            let a = alphas[ia];
+            ia += 1;
+            if a < 0.0 { ExponentialConeT() } else { PowerConeT(a) }
+        }
+        5 => {
+            let d1 = gpd1[ig];
+            ig += 1;
+            let al = gpal[iga..iga + d1].to_vec();
+            iga += d1;
+            GenPowerConeT(al, n - d1)
+        }
+        _ => PSDTriangleConeT(n),
+    }).collect()
+}
+fn k_settings(r: &Req) -> DefaultSettings<f64> {
+    let mut st = DefaultSettings::<f64>::default();
+    st.max_step_fraction = r.f("msf");
+    st.linesearch_backtrack_step = r.f("bstep");
+    st.min_terminate_step_length = r.f("bamin");
+    st
+}
+fn run_step_k(r: &Req) -> String {
+    let types = k_cone_types(r);
+    let mut cones = CompositeCone::<f64>::new(&types);
+    let st = k_settings(r);
+    let (z, s, x) = (r.fs("z"), r.fs("s"), r.fs("x"));
+    let (n, m) = (x.len(), z.len());
+    if !cones.update_scaling(&s, &z, 1.0, ScalingStrategy::Dual) {
+        return "update_scaling=false".into();
+    }
+    let mut vars = DefaultVariables::<f64>::new(n, m);
+    let mut step = DefaultVariables::<f64>::new(n, m);
+    vars.x = x;
+    vars.z = z;
+    vars.s = s;
+    vars.τ = r.f("tau");
+    vars.κ = r.f("kappa");
+    step.x = r.fs("dx");
+    step.z = r.fs("dz");
+    step.s = r.fs("ds");
+    step.τ = r.f("dtau");
+    step.κ = r.f("dkappa");
+    let a = verif_hooks_info::calc_step_length(&vars, &step, &mut cones, &st, r.b("combined"));
+    verif_hooks_info::add_step(&mut vars, &step, a);
+    Line::out().f("alpha", a).fs("x", &vars.x).fs("s", &vars.s).fs("z", &vars.z).f("tau", vars.τ).f("kappa", vars.κ).done()
+}
+/// the property, stated on the implementation's response: from an interior iterate the combined
+/// step is in [0, msf·min(1, ατ, ακ)] and the iterate after `add_step` is interior again
+fn oracle_step_k(r: &Req, out: &str) -> Result<(), String> {
+    if out.starts_with("panic") {
+        return Err(out.to_string());
+    }
+    let o = Req::parse(&format!("x {}", out)).ok_or("resp")?;
+    if !o.has("alpha") {
+        return Ok(()); // update_scaling=false: never submitted
+    }
+    let a = o.f("alpha");
+    let (z, s, dz, ds) = (r.fs("z"), r.fs("s"), r.fs("dz"), r.fs("ds"));
+    let (tau, kappa, dtau, dkappa, msf) = (r.f("tau"), r.f("kappa"), r.f("dtau"), r.f("dkappa"), r.f("msf"));
+    let finite = z.iter().chain(&s).chain(&dz).chain(&ds).chain([tau, kappa, dtau, dkappa].iter()).all(|v| v.is_finite());
+    if !finite {
+        // non-finite directions: the step length itself must still be a number
+        if a.is_nan() {
+            return Err("calc_step_length returned NaN".into());
+        }
+        return Ok(());
+    }
+    if !(tau > 0.0 && kappa > 0.0 && msf > 0.0 && msf < 1.0) {
+        return Ok(());
+    }
+    let types = k_cone_types(r);
+    // only from interior iterates (the generator produces them; measured with the same margin function)
+    let mut off = 0;
+    let mut start_ok = true;
+    for c in &types {
+        let k = cone_nvars(c);
+        for (dual, v) in [(false, &s[off..off + k]), (true, &z[off..off + k])] {
+            if let Some(mg) = margin(c, v, dual) {
+                if !(mg > 1e-9) { start_ok = false; }
+            }
+        }
+        off += k;
+    }
+    if !start_ok {
+        return Ok(());
+    }
+    let ratio = |v: f64, dv: f64| if dv < 0.0 { -v / dv } else { f64::MAX };
+    let amax = ratio(tau, dtau).min(ratio(kappa, dkappa)).min(1.0);
+    let combined = r.b("combined");
+    let cap = if combined { amax * msf } else { amax };
+    if !(a >= 0.0 && a <= cap) {
+        return Err(format!("step length {:e} outside [0, {:e}]", a, cap));
+    }
+    let nonsym = types.iter().any(|c| matches!(c, ExponentialConeT() | PowerConeT(_) | GenPowerConeT(_, _)));
+    if combined && nonsym && !(a <= msf * msf) {
+        return Err(format!("step length {:e} exceeds max_step_fraction^2 with a nonsymmetric cone", a));
+    }
+    if !combined {
+        return Ok(());
+    }
+    let (tn, kn) = (o.f("tau"), o.f("kappa"));
+    if !(tn > 0.0 && kn > 0.0) {
+        return Err(format!("tau = {:e}, kappa = {:e} after the step", tn, kn));
+    }
+    let (zn, sn) = (o.fs("z"), o.fs("s"));
+    let mut off = 0;
+    for c in &types {
+        let k = cone_nvars(c);
+        for (dual, v, v0) in [(false, &sn[off..off + k], &s[off..off + k]), (true, &zn[off..off + k], &z[off..off + k])] {
+            if let Some(mg) = margin(c, v, dual) {
+                let tol = match c {
+                    NonnegativeConeT(_) => 0.0,
+                    SecondOrderConeT(_) => -1e-12,
+                    PSDTriangleConeT(n) => {
+                        // conditioning of the start point enters the eigenvalue error
+                        let e0 = psd_eigs(v0, *n);
+                        let (l0, m0) = (e0.iter().cloned().fold(f64::INFINITY, f64::min), e0.iter().map(|t| t.abs()).fold(0.0, f64::max));
+                        -1e-12 * (m0 / l0).max(1.0)
+                    }
+                    _ => -1e-9,
+                };
+                if !(mg > tol) {
+                    return Err(format!("{} {} leaves the cone: margin {:e} after step {:e}", fmt_cones(std::slice::from_ref(c)), if dual { "z" } else { "s" }, mg, a));
+                }
+            }
+        }
+        off += k;
+    }
+    Ok(())
+}
+fn psd_eigs(v: &[f64], n: usize) -> Vec<f64> {
+    let mut a = vec![vec![0.0; n]; n];
+    let mut idx = 0;
+    for col in 0..n {
+        for row in 0..=col {
+            let val = if row == col { v[idx] } else { v[idx] / std::f64::consts::SQRT_2 };
+            a[row][col] = val;
+            a[col][row] = val;
+            idx += 1;
+        }
+    }
+    // power of the cyclic Jacobi routine above: diagonal after convergence
+    let lo = min_eig(a.clone());
+    let hi = -min_eig(a.iter().map(|r| r.iter().map(|t| -t).collect()).collect());
+    vec![lo, hi]
+}
+
+// generators for interior points of every cone kind
+fn vnrm(a: &[f64]) -> f64 {
+    a.iter().map(|x| x * x).sum::<f64>().sqrt()
+}
+fn k_soc_interior(rng: &mut Rng, n: usize, delta: f64) -> Vec<f64> {
+    let v: Vec<f64> = (0..n - 1).map(|_| if rng.bool(0.1) { 0.0 } else { rng.normal() }).collect();
+    let nv = vnrm(&v);
+    let mut x = vec![if nv == 0.0 { 1.0 } else { nv * (1.0 + delta) }];
+    x.extend(v);
+    while !(x[0] > vnrm(&x[1..])) {
+        x[0] *= 1.0 + 1e-15;
+    }
+    x
+}
+fn k_dir(rng: &mut Rng, x: &[f64]) -> Vec<f64> {
+    match rng.below(6) {
+        0 => x.iter().map(|v| -v * (1.0 + 0.2 * rng.normal())).collect(),
+        1 => vec![0.0; x.len()],
+        2 => (0..x.len()).map(|_| rng.normal() * 10.0).collect(),
+        3 => x.iter().map(|v| -v * rng.uniform(0.0, 2.0)).collect(),
+        4 => (0..x.len()).map(|_| rng.normal() * 10f64.powf(rng.uniform(-6.0, 6.0))).collect(),
+        _ => (0..x.len()).map(|_| rng.normal()).collect(),
+    }
+}
+fn k_feas(al: f64, primal: bool, p: &[f64]) -> bool {
+    if al < 0.0 {
+        let k = ExponentialCone::<f64>::new();
+        if primal { hexp::is_primal_feasible(&k, p) } else { hexp::is_dual_feasible(&k, p) }
+    } else {
+        let k = PowerCone::<f64>::new(al);
+        if primal { hpow::is_primal_feasible(&k, p) } else { hpow::is_dual_feasible(&k, p) }
+    }
+}
+fn k_nonsym_point(rng: &mut Rng, al: f64, primal: bool) -> Vec<f64> {
+    for _ in 0..200 {
+        let p: Vec<f64> = if al < 0.0 {
+            if primal {
+                let s2 = 10f64.powf(rng.uniform(-1.0, 1.0));
+                let s1 = rng.normal();
+                vec![s1, s2, s2 * (s1 / s2).exp() * (1.0 + 10f64.powf(rng.uniform(-3.0, 0.5)))]
+            } else {
+                let z1 = -10f64.powf(rng.uniform(-1.0, 1.0));
+                let z2 = rng.normal();
+                vec![z1, z2, -z1 * (z2 / z1 - 1.0).exp() * (1.0 + 10f64.powf(rng.uniform(-3.0, 0.5)))]
+            }
+        } else {
+            let a = 10f64.powf(rng.uniform(-1.0, 1.0));
+            let b = 10f64.powf(rng.uniform(-1.0, 1.0));
+            let bound = if primal { a.powf(al) * b.powf(1.0 - al) } else { (a / al).powf(al) * (b / (1.0 - al)).powf(1.0 - al) };
+            vec![a, b, bound * rng.uniform(-0.95, 0.95)]
+        };
+        if k_feas(al, primal, &p) {
+            return p;
+        }
+    }
+    if al < 0.0 { vec![-1.051383945322714, 0.556409619469370, 1.258967884768947] } else { vec![(1.0 + al).sqrt(), (2.0 - al).sqrt(), 0.0] }
+}
+fn k_psd_point(rng: &mut Rng, n: usize, spread: f64) -> Vec<f64> {
+    let b: Vec<Vec<f64>> = (0..n).map(|_| (0..n).map(|_| rng.normal()).collect()).collect();
+    let mut x = vec![];
+    for col in 0..n {
+        for row in 0..=col {
+            let mut v: f64 = (0..n).map(|k| b[row][k] * b[col][k]).sum();
+            if row == col { v += spread; x.push(v) } else { x.push((v + v) * std::f64::consts::FRAC_1_SQRT_2) }
+        }
+    }
+    x
+}
+fn k_alpha_vec(rng: &mut Rng, d1: usize) -> Vec<f64> {
+    loop {
+        let mut a: Vec<f64> = (0..d1).map(|_| rng.uniform(0.05, 1.0)).collect();
+        let sum: f64 = a.iter().sum();
+        for v in a.iter_mut() { *v /= sum; }
+        if d1 > 1 {
+            let head: f64 = a[..d1 - 1].iter().fold(0.0, |acc, x| acc + x);
+            a[d1 - 1] = 1.0 - head;
+        } else {
+            a[0] = 1.0;
+        }
+        let sum = a.iter().fold(0.0, |acc, x| acc + x);
+        if a.iter().all(|&v| v > 0.0) && (1.0 - sum).abs() < f64::EPSILON * d1 as f64 * 0.5 {
+            return a;
+        }
+    }
+}
+fn k_genpow_point(rng: &mut Rng, al: &[f64], d2: usize, dual: bool) -> Vec<f64> {
+    let k = GenPowerCone::<f64>::new(al.to_vec(), d2);
+    for _ in 0..200 {
+        let u: Vec<f64> = al.iter().map(|_| 10f64.powf(rng.uniform(-1.0, 1.0))).collect();
+        let bound: f64 = u.iter().zip(al).map(|(x, a)| if dual { (x / a).powf(*a) } else { x.powf(*a) }).product();
+        let w: Vec<f64> = (0..d2).map(|_| rng.normal()).collect();
+        let nw = vnrm(&w).max(f64::MIN_POSITIVE);
+        let f = bound * rng.uniform(0.0, 0.95) / nw;
+        let mut p = u.clone();
+        p.extend(w.iter().map(|v| v * f));
+        let ok = if dual { hgp::is_dual_feasible(&k, &p) } else { hgp::is_primal_feasible(&k, &p) };
+        if ok {
+            return p;
+        }
+    }
+    let mut p: Vec<f64> = al.iter().map(|a| (1.0 + a).sqrt()).collect();
+    p.extend(vec![0.0; d2]);
+    p
+}
+/// what LAPACK contributes to `PSDTriangleCone::step_length` at `(s, z)` along `(dz, ds)`
+fn k_psd_record(n: usize, sv: &[f64], z: &[f64], dz: &[f64], ds: &[f64]) -> Option<(Vec<f64>, Vec<f64>, f64, f64, bool, bool)> {
+    let mut k = PSDTriangleCone::<f64>::new(n);
+    if !k.update_scaling(sv, z, 1.0, ScalingStrategy::PrimalDual) {
+        return None;
+    }
+    let len = n * (n + 1) / 2;
+    let mut dzw = vec![0.0; len];
+    k.mul_W(hsoc::matrix_shape(false), &mut dzw, dz, 1.0, 0.0);
+    let gzok = hpstep::eigvals_ok(&mut k, &dzw);
+    let (_, gz) = hpsd::step_length_component_gamma(&mut k, &dzw, 1.0);
+    let mut dsw = vec![0.0; len];
+    k.mul_Winv(hsoc::matrix_shape(true), &mut dsw, ds, 1.0, 0.0);
+    let gsok = hpstep::eigvals_ok(&mut k, &dsw);
+    let (_, gs) = hpsd::step_length_component_gamma(&mut k, &dsw, 1.0);
+    Some((hpsd::R(&k).to_vec(), hpsd::Rinv(&k).to_vec(), if gzok { gz } else { 0.0 }, if gsok { gs } else { 0.0 }, gzok, gsok))
+}
+
+fn gen_step_k(s: &mut Session) {
+    let ncones = 1 + s.rng.below(5);
+    let (mut kinds, mut dims, mut alphas, mut gpal, mut gpd1) = (vec![], vec![], vec![], vec![], vec![]);
+    let (mut z, mut sv, mut dz, mut ds) = (vec![], vec![], vec![], vec![]);
+    let (mut psdg, mut psdok, mut psd_r, mut psd_ri): (Vec<f64>, Vec<usize>, Vec<f64>, Vec<f64>) = (vec![], vec![], vec![], vec![]);
+    let symmetric_only = s.rng.bool(0.3);
+    for _ in 0..ncones {
+        let kind = if symmetric_only { *s.rng.choose(&[0usize, 1, 1, 2, 2, 4]) } else { *s.rng.choose(&[0usize, 1, 2, 3, 3, 4, 5]) };
+        match kind {
+            0 => {
+                let n = s.rng.below(3);
+                kinds.push(0);
+                dims.push(n);
+                for _ in 0..n {
+                    z.push(s.rng.normal());
+                    sv.push(0.0);
+                    dz.push(s.rng.normal());
+                    ds.push(if s.rng.bool(0.5) { 0.0 } else { s.rng.normal() });
+                }
+            }
+            1 => {
+                let n = 1 + s.rng.below(3);
+                kinds.push(1);
+                dims.push(n);
+                for _ in 0..n {
+                    let (a, b) = (10f64.powf(s.rng.uniform(-3.0, 3.0)), 10f64.powf(s.rng.uniform(-3.0, 3.0)));
+                    z.push(a);
+                    sv.push(b);
+                    dz.push(if s.rng.bool(0.3) { -a * s.rng.uniform(0.5, 3.0) } else { s.rng.normal() });
+                    ds.push(if s.rng.bool(0.3) { -b * s.rng.uniform(0.5, 3.0) } else { s.rng.normal() });
+                }
+            }
+            2 => {
+                let n = 2 + s.rng.below(4);
+                kinds.push(2);
+                dims.push(n);
+                let d = *s.rng.choose(&[1e-3, 0.1, 1.0]);
+                let a = k_soc_interior(&mut s.rng, n, d);
+                let b = k_soc_interior(&mut s.rng, n, d);
+                dz.extend(k_dir(&mut s.rng, &a));
+                ds.extend(k_dir(&mut s.rng, &b));
+                z.extend(a);
+                sv.extend(b);
+            }
+            3 => {
+                let al = if s.rng.bool(0.5) { -1.0 } else { *s.rng.choose(&[0.5, 0.3, 0.9]) };
+                kinds.push(3);
+                dims.push(3);
+                alphas.push(al);
+                let a = k_nonsym_point(&mut s.rng, al, false);
+                let b = k_nonsym_point(&mut s.rng, al, true);
+                dz.extend(k_dir(&mut s.rng, &a));
+                ds.extend(k_dir(&mut s.rng, &b));
+                z.extend(a);
+                sv.extend(b);
+            }
+            4 => {
+                let n = 1 + s.rng.below(3);
+                kinds.push(4);
+                dims.push(n);
+                let sp = *s.rng.choose(&[1.0, 0.3]);
+                let a = k_psd_point(&mut s.rng, n, sp);
+                let b = k_psd_point(&mut s.rng, n, sp);
+                let da = k_dir(&mut s.rng, &a);
+                let db = k_dir(&mut s.rng, &b);
+                match k_psd_record(n, &b, &a, &da, &db) {
+                    Some((r, ri, gz, gs, okz, oks)) => {
+                        psd_r.extend(r);
+                        psd_ri.extend(ri);
+                        psdg.push(gz);
+                        psdg.push(gs);
+                        psdok.push(okz as usize);
+                        psdok.push(oks as usize);
+                    }
+                    None => {
+                        s.count("step_k:psd-scaling-failed (skipped)");
+                        return;
+                    }
+                }
+                z.extend(a);
+                sv.extend(b);
+                dz.extend(da);
+                ds.extend(db);
+            }
+            _ => {
+                let d1 = 1 + s.rng.below(3);
+                let d2 = 1 + s.rng.below(2);
+                let al = k_alpha_vec(&mut s.rng, d1);
+                kinds.push(5);
+                dims.push(d1 + d2);
+                let a = k_genpow_point(&mut s.rng, &al, d2, true);
+                let b = k_genpow_point(&mut s.rng, &al, d2, false);
+                dz.extend(k_dir(&mut s.rng, &a));
+                ds.extend(k_dir(&mut s.rng, &b));
+                z.extend(a);
+                sv.extend(b);
+                gpd1.push(d1);
+                gpal.extend(al);
+            }
+        }
+    }
+    let n = s.rng.below(4);
+    let x: Vec<f64> = (0..n).map(|_| dir(&mut s.rng)).collect();
+    let dx: Vec<f64> = (0..n).map(|_| dir(&mut s.rng)).collect();
+    let (mut tau, mut kappa, mut dtau, mut dkappa) = (pos(&mut s.rng), pos(&mut s.rng), dir(&mut s.rng), dir(&mut s.rng));
+    if s.rng.bool(0.5) {
+        tau = s.rng.uniform(0.1, 3.0);
+        kappa = s.rng.uniform(0.1, 3.0);
+    }
+    // a few requests with non-finite entries in the direction (never inside a PSD block: LAPACK)
+    let mut nonfinite = false;
+    if s.rng.bool(0.06) {
+        nonfinite = true;
+        match s.rng.below(4) {
+            0 => dtau = f64::NAN,
+            1 => dkappa = f64::NEG_INFINITY,
+            2 => { tau = tau.max(1e-3); dtau = f64::NEG_INFINITY; }
+            _ => {
+                let mut start = 0;
+                for (&k, &d) in kinds.iter().zip(&dims) {
+                    let len = if k == 4 { d * (d + 1) / 2 } else { d };
+                    if k != 4 && len > 0 {
+                        let i = start + s.rng.below(len);
+                        let bad = *s.rng.choose(&[f64::NAN, f64::INFINITY, f64::NEG_INFINITY]);
+                        if s.rng.bool(0.5) { dz[i] = bad; } else { ds[i] = bad; }
+                        break;
+                    }
+                    start += len;
+                }
+            }
+        }
+    }
+    let msf = *s.rng.choose(&[0.99, 0.99, 0.9, 0.5, 0.999]);
+    let (bstep, bamin) = (*s.rng.choose(&[0.8, 0.5]), *s.rng.choose(&[1e-4, 1e-2]));
+    let line = Line::new("vars.step_k").us("kinds", &kinds).us("dims", &dims).fs("alphas", &alphas)
+        .fs("gpal", &gpal).us("gpd1", &gpd1).fs("psdg", &psdg).us("psdok", &psdok).fs("psdR", &psd_r).fs("psdRinv", &psd_ri)
+        .fs("x", &x).fs("dx", &dx).fs("z", &z).fs("s", &sv).fs("dz", &dz).fs("ds", &ds)
+        .f("tau", tau).f("kappa", kappa).f("dtau", dtau).f("dkappa", dkappa)
+        .f("msf", msf).f("bstep", bstep).f("bamin", bamin).b("combined", s.rng.bool(0.8)).done();
+    if s.run_impl(&line).starts_with("update_scaling=false") {
+        s.count("step_k:update_scaling=false (skipped)");
+        return;
+    }
+    s.count(if nonfinite { "step_k:non-finite-direction" } else if kinds.iter().any(|&k| k == 3 || k == 5) { "step_k:with-nonsymmetric" } else { "step_k:symmetric-only" });
+    let out = s.submit(line);
+    if let Some(a) = field(&out, "alpha").and_then(vharness::proto::parse_f) {
+        s.count(if a == 0.0 { "step_k:alpha=0" } else if a.is_nan() { "step_k:alpha=NaN" } else { "step_k:alpha>0" });
+    }
 }
 
 // ---------------------------------------------------------------- loop.prefix
@@ -445,6 +887,9 @@ fn channels() -> Vec<Channel> {
             lean: "Step.calcStepLength, Step.nnStepLength / C07.tau_kappa_pos, C07.interior_preserved_nn" },
         Channel { name: "vars.add_step", tol: Tol::Exact, run: run_add_step, oracle: None, modelled: true,
             rust_fn: "DefaultVariables::add_step", lean: "Step.addStepVec / addStepScalar" },
+        Channel { name: "vars.step_k", tol: Tol::Exact, run: run_step_k, oracle: Some(oracle_step_k), modelled: true,
+            rust_fn: "DefaultVariables::calc_step_length + CompositeCone::step_length (all cone kinds) + add_step",
+            lean: "StepK.calcStepLength, StepK.addStep / C07.interior_preserved, interior_preserved_mixed, calc_step_length_nan_free" },
         Channel { name: "loop.prefix", tol: Tol::Exact, run: run_loop_prefix, oracle: None, modelled: true,
             rust_fn: "Solver::solve under max_iter = k", lean: "Loop.solve {cfg with maxIter := k} / C07.prefix" },
         Channel { name: "traj.prefix", tol: Tol::Exact, run: run_traj_prefix, oracle: Some(oracle_traj_prefix), modelled: false,
@@ -551,6 +996,9 @@ fn generate(s: &mut Session) {
             .fs("sv", &sv).fs("dsv", &dsv).fs("zv", &zv).fs("dzv", &dzv).f("kappa", pos(&mut s.rng)).f("dkappa", dir(&mut s.rng))
             .f("alpha", *s.rng.choose(&[0.99, 1.0, 0.3, 1e-4, 0.123456789]));
         s.submit(l.done());
+    }
+    for _ in 0..s.budget(1500, 40000) {
+        gen_step_k(s);
     }
     for k in 0..s.budget(150, 4000) {
         let mut rng = s.rng.fork();
